@@ -7,7 +7,7 @@ M = Module('contracts.c09', prop='C09')
 M.use('contracts.base')
 
 M.contract('xtuml.meta.MetaClass.select_many', [('self', MC), ('*args', None)], returns=QSET, trusted=True,
-           reason='assumed: decided by the bounded tier (c09 item select); the order claim needs the insertion order of OrderedSet(iterable), which contracts.c17 does not state',
+           reason='for the form without operators: proved element-wise as select_many@noargs below (same length, the same instance at each position, from the arrival-order clause of OrderedSet.__init__ in contracts.c17); what is assumed here is only the step from the element-wise form to sequence equality (extensionality, which the solver does not derive within the budget); with operators: bounded tier (c09 item select)',
            ensures={'pool-in-creation-order': 'implies(len(args) == 0, result is not None and fresh(result) and result.view == self.storage)'},
            modifies=[], ghost={'allocates': True})
 
@@ -16,7 +16,7 @@ def subtype_of(inst, rel_id):
     return subtype_witness(inst, rel_id)
 ''')
 M.contract('xtuml.meta.MetaModel.select_many', [('self', MM), ('kind', STR), ('*args', None)], returns=QSET, trusted=True,
-           reason='assumed: decided by the bounded tier (c09 item select); the order claim needs the insertion order of OrderedSet(iterable), which contracts.c17 does not state',
+           reason='for the form without operators: proved element-wise as select_many@noargs below (same length, the same instance at each position, from the arrival-order clause of OrderedSet.__init__ in contracts.c17); what is assumed here is only the step from the element-wise form to sequence equality (extensionality, which the solver does not derive within the budget); with operators: bounded tier (c09 item select)',
            requires={'class-known': 'upper(kind) in self.metaclasses'},
            ensures={'pool-in-creation-order': 'implies(len(args) == 0, result is not None and fresh(result) and result.view == self.metaclasses[upper(kind)].storage)'},
            modifies=[], ghost={'allocates': True})
@@ -46,6 +46,28 @@ M.contract('xtuml.meta.WhereEqual.__call__', [('self', WE), ('s', SeqT(INST))], 
            loops={0: Loop(inv={'matching-prefix-yielded': '_yielded == filtered(s, self, _i)', 'iterates': '_seq == s',
                                'items': 'len(items) == len(map_keys(self._dict_)) and all(items[j][0] == map_keys(self._dict_)[j] and items[j][1] == self._dict_[map_keys(self._dict_)[j]] for j in range(0, len(items)))'}),
                   1: Loop(inv={'all-earlier-items-match': 'all(attr_value(inst, map_keys(self._dict_)[j]) == self._dict_[map_keys(self._dict_)[j]] for j in range(0, _i))', 'iterates': '_seq == items'})})
+
+# ---- select_many without operators: the pool itself, instance by instance, in creation order (composition of apply_query_operators
+#      with no operator and the arrival-order clause of OrderedSet.__init__ proved in contracts.c17)
+M.use('contracts.oset_client')
+M.klass('QuerySet', bases=['OrderedSet'], init_variants={0: 'xtuml.tools.OrderedSet.__init__@none', 1: 'xtuml.tools.OrderedSet.__init__@seq'})
+M.contract('xtuml.meta.MetaClass.select_many@noargs', [('self', MC)], returns=QSET, statics={'args': PyTuple(())},
+           requires={'pool-of-distinct-instances': 'all(x is not None for x in self.storage) and '
+                     'all(all(implies(i < j, self.storage[i] is not self.storage[j]) for j in range(0, len(self.storage))) for i in range(0, len(self.storage)))'},
+           ensures={'a-new-query-set': 'result is not None and fresh(result)',
+                    'the-pool-instance-by-instance-in-creation-order':
+                    'len(result.view) == len(self.storage) and all(result.view[j] is self.storage[j] for j in range(0, len(self.storage)))'},
+           modifies=[])
+
+M.contract('xtuml.meta.MetaModel.select_many@noargs', [('self', MM), ('kind', STR)], returns=QSET, statics={'args': PyTuple(())},
+           requires={'class-known': 'upper(kind) in self.metaclasses and self.metaclasses[upper(kind)] is not None',
+                     'pool-of-distinct-instances': 'all(x is not None for x in self.metaclasses[upper(kind)].storage) and '
+                     'all(all(implies(i < j, self.metaclasses[upper(kind)].storage[i] is not self.metaclasses[upper(kind)].storage[j]) '
+                     'for j in range(0, len(self.metaclasses[upper(kind)].storage))) for i in range(0, len(self.metaclasses[upper(kind)].storage)))'},
+           ensures={'the-pool-of-the-class-in-any-spelling-instance-by-instance-in-creation-order':
+                    'result is not None and len(result.view) == len(self.metaclasses[upper(kind)].storage) '
+                    'and all(result.view[j] is self.metaclasses[upper(kind)].storage[j] for j in range(0, len(self.metaclasses[upper(kind)].storage)))'},
+           modifies=[])
 
 # ---- single-instance forms without query operators: the first element in model order, or None
 M.uninterpreted('queried', [SeqT(INST), INT], SeqT(INST))
